@@ -15,7 +15,10 @@ theorem decodeItemBody_local (c : Codec) : Local (decodeItemBody c) := by
   refine local_bind (local_take _) fun key => ?_
   refine local_bind (local_take _) fun stored => ?_
   cases comp
-  · exact local_pure _
+  · show Local (if _ then _ else _)
+    split
+    · exact local_pure _
+    · exact local_fail
   · exact local_bind (local_ofOption _) fun _ => local_pure _
 
 theorem decodeEntry_local (p : Params) (c : Codec) : Local (decodeEntry p c) := by
@@ -141,7 +144,9 @@ theorem decodeEntry_tag (p : Params) (c : Codec) (t : UInt8) (y : Bytes) (e : En
     unfold decodeItemBody
     repeat (refine yields_bind fun _ => ?_)
     split
-    · exact yields_pure rfl
+    · split
+      · exact yields_pure rfl
+      · exact yields_fail
     · exact yields_bind fun _ => yields_pure rfl
   split at h
   · rename_i ht
@@ -178,7 +183,9 @@ theorem decodeEntry_fin_inv (p : Params) (c : Codec) (x : Bytes) (s : Nat) (r : 
         unfold decodeItemBody
         repeat (refine yields_bind fun _ => ?_)
         split
-        · exact yields_pure ⟨_, rfl⟩
+        · split
+          · exact yields_pure ⟨_, rfl⟩
+          · exact yields_fail
         · exact yields_bind fun _ => yields_pure ⟨_, rfl⟩
       obtain ⟨_, h⟩ := this _ _ _ h; cases h
     rw [if_pos trivial] at h
